@@ -25,6 +25,8 @@ var Hosts = map[string]*HostSpec{
 	"hv":    {Name: "hv", Params: []string{"any", "any"}, Variadic: true},       // (a, rest...) returns len(rest)
 	"hs":    {Name: "hs", Params: []string{"string", "int64"}},                  // typed parameters, returns s
 	"hvs":   {Name: "hvs", Params: []string{"string", "int64"}, Variadic: true}, // (s, nums...) returns len(nums)
+	"hcb":   {Name: "hcb", Params: []string{"func"}},                      // Go function taking func(): calls it
+	"heach": {Name: "heach", Params: []string{"any", "func"}},             // Go function taking (list, func(interface{})): calls it per element
 	"pg":    {Name: "pg", Params: []string{"any"}},              // event on the goroutine trace
 	"hg":    {Name: "hg", Params: []string{"any"}, Variadic: true},                 // Go function meant to be started with `go`: event on the goroutine trace
 	"gdone": {Name: "gdone", Params: []string{}},                // goroutine completion signal
